@@ -100,9 +100,9 @@ Renumber(old, new) ==
 (* POST raw?mutate=true: regions WR get supervoxel x (an ingest of labels) *)
 (***************************************************************************)
 Overwrite(WR, x) ==
-    /\ WR # {} /\ x > 0
+    /\ WR # {} /\ x >= 0 /\ \E r \in WR : sv[r] # x
     /\ sv' = [r \in Regions |-> IF r \in WR THEN x ELSE sv[r]]
-    /\ mp' = [s \in ({sv'[r] : r \in Regions} \ {0}) |-> IF s \in DOMAIN mp THEN mp[s] ELSE s]
+    /\ mp' = [s \in ({sv'[r] : r \in Regions} \ {0}) |-> IF s \in DOMAIN mp THEN mp[s] ELSE s]   \* a new label is its own body
     /\ nxt' = IF x > nxt THEN x ELSE nxt
     /\ last' = [op |-> "overwrite", regions |-> WR, label |-> x]
 
@@ -133,7 +133,8 @@ Next ==
        \/ \E B \in Bodies : \E C \in NonEmptyProperSubsets(SVsOf(B)) : Cleave(B, C)
        \/ \E s \in SVs : \E S \in NonEmptyProperSubsets(RegionsOfSV(s)) : SplitSV(s, S)
        \/ \E old \in Bodies : Renumber(old, nxt + 5)
-       \/ WithOverwrite /\ \E r \in Regions : Overwrite({r}, nxt + 7)
+       \* a region is overwritten with a fresh label, with a supervoxel already present, or erased
+       \/ WithOverwrite /\ \E r \in Regions : \E x \in {0, nxt + 7} \cup SVs : Overwrite({r}, x)
 
 Spec == Init /\ [][Next]_vars
 
